@@ -31,6 +31,12 @@ func c07Workload(seed uint64, n int) (sizes []int, events [][]string) {
 	r := lib.NewRand(seed)
 	for i := 1; i <= n; i++ {
 		k := r.Pick(1, 1, 1, 2, 3, 8, 17)
+		if i == 1 {
+			k = 1 // boundary: after the first entry the persisted state says "version 0"
+		}
+		if i == n/2 {
+			k = 300 // one large bulk: well over a thousand mutations in one apply
+		}
 		sizes = append(sizes, k)
 		evs := make([]string, k)
 		for j := range evs {
@@ -211,6 +217,7 @@ func c07Worker(args []string) int {
 			raw[j] = []byte(ev)
 		}
 		fmt.Fprintf(af, "CALL %d\n", i)
+		seq0 := nd.Raw.LastWALSequenceNumber()
 		var snaps []*balloon.Snapshot
 		var err error
 		if len(raw) == 1 && i%2 == 0 {
@@ -223,6 +230,12 @@ func c07Worker(args []string) int {
 		if err != nil {
 			fmt.Printf("C07-ERROR add entry %d: %v\n", i, err)
 			return 4
+		}
+		// the storage write of one insertion must be ONE atomic batch (the crash-point enumeration at the store
+		// seam is only complete if nothing can be cut inside it): count the WAL batches this entry produced
+		cw := &countingWriter{}
+		if ferr := nd.Raw.FetchSnapshot(cw, seq0, nd.Raw.LastWALSequenceNumber(), func([]byte) (bool, error) { return true, nil }); ferr == nil && cw.n != 1 {
+			viol("insertion-not-one-atomic-write", fmt.Sprintf("entry %d (%d events) reached the store in %d separate write batches: a crash between them leaves a state that is no prefix of the committed entries", i, len(raw), cw.n))
 		}
 		var hs []string
 		for j, s := range snaps {
@@ -467,3 +480,9 @@ func violKey(out string) string {
 	}
 	return "unknown"
 }
+
+// countingWriter counts the chunks (one per write batch) a WAL fetch produces.
+type countingWriter struct{ n int }
+
+func (c *countingWriter) Write(p []byte) (int, error) { c.n++; return len(p), nil }
+func (c *countingWriter) Close() error                { return nil }
